@@ -277,6 +277,8 @@ C07_ClaimsOnlyByOwner(w1, e, w2) ==
            => Committed(e, "hub", "withdraw_unbonded") /\ e.tx.sender = u /\ i <= Len(w2.hist) /\ w2.hist[i].released
       /\ (w2.wait[u][i].b > w1.wait[u][i].b \/ w2.wait[u][i].st > w1.wait[u][i].st)
            => e.ok /\ (IsHookTx(e, "bsei", "unbond") \/ IsHookTx(e, "stsei", "unbond")) /\ e.tx.sender = u /\ i = w1.batch.id
+\* the WithdrawableUnbonded query reports the claims on batches older than the unbonding period at their current rates
+C07_QueriesFaithful(w0, o) == \A u \in Accts : o.withdrawable[u] = QueryWithdrawable(w0, u)
 C07_Step(w1, e, w2) == C07_UnbondRecorded(w1, e, w2) /\ C07_ClaimsOnlyByOwner(w1, e, w2)
 
 -----------------------------------------------------------------------------
